@@ -156,39 +156,66 @@ Proof.
 Qed.
 
 (* ---- the snapshot list is the set of exported parameters of the scope *)
+Lemma pidx_of_spec : forall nd m i, In i (pidx_of nd m) <-> exported nd (m, i) = true.
+Proof.
+  intros nd m i. unfold pidx_of, exported; simpl.
+  destruct (nth_error nd m) as [[e ps] |] eqn:E; [| simpl; split; [tauto | discriminate]].
+  destruct e; [| simpl; split; [tauto | discriminate]]. simpl. rewrite filter_In, in_seq. split; [tauto |].
+  intros H. split; auto. split; [lia |]. simpl.
+  destruct (Nat.lt_ge_cases i (length ps)); auto. rewrite nth_overflow in H; auto; discriminate.
+Qed.
 Lemma params_of_spec : forall nd m p, In p (params_of nd m) <-> fst p = m /\ exported nd p = true.
 Proof.
-  intros nd m [a b]. unfold params_of, exported; simpl.
-  destruct (nth_error nd m) as [[e ps] |] eqn:E.
-  - destruct e.
-    + rewrite in_map_iff. split.
-      * intros [i [H F]]. inversion H; subst. apply filter_In in F. destruct F as [_ F]. rewrite E; simpl; auto.
-      * intros [-> H]. rewrite E in H; simpl in H. exists b; split; auto. apply filter_In; split; auto.
-        apply in_seq. split; [lia |]. simpl.
-        destruct (Nat.lt_ge_cases b (length ps)); auto. rewrite nth_overflow in H; auto; discriminate.
-    + simpl. split; [tauto |]. intros [-> H]. rewrite E in H; discriminate.
-  - simpl. split; [tauto |]. intros [-> H]. rewrite E in H; discriminate.
+  intros nd m [a b]. unfold params_of. rewrite in_map_iff. simpl. split.
+  - intros [i [H F]]. inversion H; subst. split; auto. apply pidx_of_spec; auto.
+  - intros [-> H]. exists b; split; auto. apply pidx_of_spec; auto.
+Qed.
+Lemma exported_mod : forall nd p, exported nd p = true -> mod_exported nd (fst p) = true /\ fst p < length nd.
+Proof.
+  intros nd p H. unfold exported in H. unfold mod_exported.
+  destruct (nth_error nd (fst p)) as [[e ps] |] eqn:E; [| discriminate]. apply andb_true_iff in H. destruct H as [-> _].
+  split; auto. apply nth_error_Some. congruence.
+Qed.
+Lemma in_flat : forall groups p, In p (flat groups) <-> exists g, In g groups /\ fst p = fst g /\ In (snd p) (snd g).
+Proof.
+  intros groups [a b]. unfold flat, group_pids. rewrite in_flat_map. simpl. split.
+  - intros [g [G H]]. apply in_map_iff in H. destruct H as [i [E I]]. inversion E; subst. exists g; auto.
+  - intros [g [G [E I]]]. exists g. split; auto. apply in_map_iff. exists b. subst a; auto.
 Qed.
 Lemma snapshot_list_spec : forall nd sc p, act_error nd sc = None ->
   (In p (snapshot_list nd sc) <-> covers sc p = true /\ exported nd p = true).
 Proof.
-  intros nd sc p A. destruct sc as [| m | m q]; simpl.
-  - rewrite in_flat_map. split.
-    + intros [m [_ H]]. apply params_of_spec in H. tauto.
-    + intros [_ H]. exists (fst p). split; [| apply params_of_spec; auto].
-      apply in_seq. split; [lia |]. simpl. unfold exported in H.
-      destruct (nth_error nd (fst p)) eqn:E; [| discriminate]. apply nth_error_Some. congruence.
-  - rewrite params_of_spec, Nat.eqb_eq. split; intros [H1 H2]; auto.
+  intros nd sc p A. unfold snapshot_list. rewrite in_flat. destruct sc as [| m | m q]; simpl.
+  - split.
+    + intros [g [G [E I]]]. apply in_map_iff in G. destruct G as [m [<- _]]. simpl in *.
+      split; auto. apply pidx_of_spec in I. rewrite <- E in I. destruct p; auto.
+    + intros [_ H]. exists (fst p, pidx_of nd (fst p)). simpl. destruct (exported_mod nd p H) as [M L].
+      split; [| split; auto; apply pidx_of_spec; destruct p; auto].
+      apply in_map_iff. exists (fst p). split; auto. apply filter_In. split; auto. apply in_seq. lia.
+  - rewrite Nat.eqb_eq. split.
+    + intros [g [[<- | []] [E I]]]. simpl in *. split; auto. apply pidx_of_spec in I. rewrite <- E in I. destruct p; auto.
+    + intros [-> H]. exists (fst p, pidx_of nd (fst p)). simpl. split; [left; reflexivity | split; [reflexivity |]]. apply pidx_of_spec. destruct p; auto.
   - simpl in A. destruct (mod_exported nd m); [| discriminate]. destruct (exported nd (m, q)) eqn:E; [| discriminate].
     split.
-    + intros [<- | []]. simpl. rewrite !Nat.eqb_refl; auto.
-    + intros [H _]. apply covers_SP in H. auto.
+    + destruct p as [a b]. intros [g [[<- | []] [F [I | []]]]]. simpl in *. subst. rewrite !Nat.eqb_refl; auto.
+    + intros [H _]. apply covers_SP in H. subst p. exists (m, [q]); simpl; auto.
 Qed.
 Lemma snapshot_list_covers : forall nd sc p, In p (snapshot_list nd sc) -> covers sc p = true.
 Proof.
-  intros nd sc p. destruct sc as [| m | m q]; simpl; auto.
-  - intros H. apply params_of_spec in H. destruct H as [<- _]. apply Nat.eqb_refl.
-  - intros [<- | []]. simpl. rewrite !Nat.eqb_refl; auto.
+  intros nd sc p. unfold snapshot_list. rewrite in_flat. destruct sc as [| m | m q]; simpl; auto.
+  - intros [g [[<- | []] [E _]]]. simpl in E. subst. apply Nat.eqb_refl.
+  - destruct p as [a b]. intros [g [[<- | []] [E [I | []]]]]. simpl in *. subst. rewrite !Nat.eqb_refl; auto.
+Qed.
+Lemma snapshot_list_complete : forall nd sc p,
+  covers sc p = true -> exported nd p = true -> In p (snapshot_list nd sc).
+Proof.
+  intros nd sc p C E. unfold snapshot_list. apply in_flat. destruct sc as [| m | m q]; simpl.
+  - exists (fst p, pidx_of nd (fst p)). simpl. destruct (exported_mod nd p E) as [M L].
+    split; [| split; auto; apply pidx_of_spec; destruct p; auto].
+    apply in_map_iff. exists (fst p). split; auto. apply filter_In. split; auto. apply in_seq. lia.
+  - simpl in C. apply Nat.eqb_eq in C. subst m. exists (fst p, pidx_of nd (fst p)). simpl. split; [left; reflexivity | split; [reflexivity |]].
+    apply pidx_of_spec. destruct p; auto.
+  - apply covers_SP in C. subst p. exists (m, [q]); simpl; auto.
 Qed.
 
 (* ---- case analysis of one step.  R is a property of the successor state. *)
@@ -200,17 +227,23 @@ Lemma cstep_cases (nd : node) (s : state) (st : tid * conn) (R : state -> Prop) 
   (forall c r rest, fst st = TC c -> c_pc (cth s c) = CRecv -> c_script (cth s c) = r :: rest -> r <> RClose ->
      R (pop_script (log_add s c (EReq r)) c (CAcq r))) ->
   (forall c r, fst st = TC c -> c_pc (cth s c) = CAcq r -> dlock s = None -> R (handle nd s c r)) ->
-  (forall c sc p todo, fst st = TC c -> c_pc (cth s c) = CBuild sc (p :: todo) ->
-     R (set_cpc s c (CSendU sc p (cache s p) todo))) ->
-  (forall c sc p v todo, fst st = TC c -> c_pc (cth s c) = CSendU sc p v todo ->
-     R (after_snapshot (log_add s c (EUpd p v)) c sc todo)) ->
+  (forall c sc m rest, fst st = TC c -> c_pc (cth s c) = CAcqU sc ((m, []) :: rest) -> ulock s m = None ->
+     R (enter_groups s c sc rest)) ->
+  (forall c sc m i todo rest, fst st = TC c -> c_pc (cth s c) = CAcqU sc ((m, i :: todo) :: rest) -> ulock s m = None ->
+     R (set_cpc (set_ulock s (upd (ulock s) m (Some (TC c)))) c (CBuild sc m (i :: todo) rest))) ->
+  (forall c sc m i todo rest, fst st = TC c -> c_pc (cth s c) = CBuild sc m (i :: todo) rest ->
+     R (set_cpc s c (CSendU sc m i (cache s (m, i)) todo rest))) ->
+  (forall c sc m i v rest, fst st = TC c -> c_pc (cth s c) = CSendU sc m i v [] rest ->
+     R (let s1 := log_add s c (EUpd (m, i) v) in enter_groups (set_ulock s1 (upd (ulock s1) m None)) c sc rest)) ->
+  (forall c sc m i v j todo rest, fst st = TC c -> c_pc (cth s c) = CSendU sc m i v (j :: todo) rest ->
+     R (set_cpc (log_add s c (EUpd (m, i) v)) c (CBuild sc m (j :: todo) rest))) ->
   (forall c r, fst st = TC c -> c_pc (cth s c) = CSendR r -> R (set_cpc (log_add s c (ERep r)) c CRecv)) ->
   (forall u, fst st = TU u -> u_pc (uth s u) = UStart -> R (next_upd s u)) ->
   (forall u p v rest, fst st = TU u -> u_pc (uth s u) = UAcq -> u_script (uth s u) = (p, v) :: rest ->
      ulock s (fst p) = None -> exported nd p = true ->
      R (let s1 := set_cache s (updp (cache s) p v) in
         let s2 := set_uth s1 (upd (uth s1) u {| u_pc := UAcq; u_script := rest |}) in
-        set_upc (set_ulock s2 (upd (ulock s2) (fst p) (Some u))) u (UBuild p))) ->
+        set_upc (set_ulock s2 (upd (ulock s2) (fst p) (Some (TU u)))) u (UBuild p))) ->
   (forall u p v rest, fst st = TU u -> u_pc (uth s u) = UAcq -> u_script (uth s u) = (p, v) :: rest ->
      ulock s (fst p) = None -> exported nd p = false ->
      R (let s1 := set_cache s (updp (cache s) p v) in
@@ -227,14 +260,17 @@ Lemma cstep_cases (nd : node) (s : state) (st : tid * conn) (R : state -> Prop) 
      R (set_upc (log_add s (snd st) (EUpd p v)) u (USend p v all (remc (snd st) pend)))) ->
   R (cstep nd s st).
 Proof.
-  intros H0 H1 H2 H3 H4 H5 H6 H7 H8 H9 H10 H11 H12 H13 H14.
+  intros H0 H1 H2 H3 H4 A1 A2 H5 H6 H6' H7 H8 H9 H10 H11 H12 H13 H14.
   destruct st as [[c | u] x]; unfold cstep; simpl in *.
   - unfold cstep_conn, cenabled.
     destruct (c_pc (cth s c)) eqn:PC; simpl; auto.
     + destruct (c_script (cth s c)) as [| r rest] eqn:SC; simpl; auto.
       destruct r; try (eapply H3; eauto; discriminate). eapply H2; eauto.
     + destruct (dlock s) eqn:DL; simpl; auto.
+    + destruct groups as [| [m todo] rest]; simpl; auto.
+      destruct (ulock s m) eqn:UL; simpl; auto. destruct todo; [eapply A1 | eapply A2]; eauto.
     + destruct todo; auto.
+    + destruct todo; [eapply H6 | eapply H6']; eauto.
   - unfold cstep_upd, uenabled.
     destruct (u_pc (uth s u)) eqn:PC; simpl; auto.
     + destruct (u_script (uth s u)) as [| [p v] rest] eqn:SC; simpl; auto.
@@ -252,16 +288,13 @@ Lemma handle_cases (nd : node) (s : state) (c : conn) (r : req) (R : state -> Pr
   (forall sc, r = RDeact sc false -> R (set_cpc (unregister s c sc) c (CSendR RpInactive))) ->
   (forall sc, r = RAct sc true -> R (set_cpc s c (CSendR (RpErr 0)))) ->
   (forall sc e, r = RAct sc false -> act_error nd sc = Some e -> R (set_cpc s c (CSendR (RpErr e)))) ->
-  (forall sc, r = RAct sc false -> act_error nd sc = None -> snapshot_list nd sc = [] ->
-     R (set_cpc (set_dlock (set_dlock (register s c sc) (Some c)) None) c (CSendR (RpActive sc)))) ->
-  (forall sc, r = RAct sc false -> act_error nd sc = None -> snapshot_list nd sc <> [] ->
-     R (set_cpc (set_dlock (register s c sc) (Some c)) c (CBuild sc (snapshot_list nd sc)))) ->
+  (forall sc, r = RAct sc false -> act_error nd sc = None ->
+     R (enter_groups (set_dlock (register s c sc) (Some c)) c sc (snapshot_groups nd sc))) ->
   (r = RClose -> R (set_cpc s c (CSendR (RpErr 0)))) ->
   R (handle nd s c r).
 Proof.
-  intros H1 H2 H3 H4 H5 H6 H7 H8. destruct r as [sc d | sc d | |]; simpl; auto.
-  - destruct d; [eapply H4; eauto |]. destruct (act_error nd sc) eqn:A; [eapply H5; eauto |].
-    unfold after_snapshot. destruct (snapshot_list nd sc) eqn:L; [apply H6; auto |]. rewrite <- L. apply H7; auto. congruence.
+  intros H1 H2 H3 H4 H5 H6 H8. destruct r as [sc d | sc d | |]; simpl; auto.
+  - destruct d; [eapply H4; eauto |]. destruct (act_error nd sc) eqn:A; [eapply H5; eauto |]. apply H6; auto.
   - destruct d; [eapply H2 | eapply H3]; eauto.
 Qed.
 
@@ -313,21 +346,36 @@ Proof. intros; unfold next_upd; destruct (u_script (uth s u)) eqn:E; simpl; rewr
 Lemma listens_next_upd : forall s u c p, listens (next_upd s u) c p = listens s c p.
 Proof. intros; apply listens_ext; [apply actv_next_upd | apply subs_next_upd]. Qed.
 
+(* ---- enter_groups: either the reply (snapshot finished, dispatcher lock released) or the next module lock *)
+Lemma enter_groups_cases (s : state) (c : conn) (sc : scope) (groups : list (nat * list nat)) (R : state -> Prop) :
+  (groups = [] -> R (set_cpc (set_dlock s None) c (CSendR (RpActive sc)))) ->
+  (groups <> [] -> R (set_cpc s c (CAcqU sc groups))) ->
+  R (enter_groups s c sc groups).
+Proof. intros H1 H2. destruct groups; simpl; [apply H1; auto | apply H2; discriminate]. Qed.
+Lemma logs_enter : forall s c sc g, logs (enter_groups s c sc g) = logs s. Proof. destruct g; reflexivity. Qed.
+Lemma uth_enter : forall s c sc g, uth (enter_groups s c sc g) = uth s. Proof. destruct g; reflexivity. Qed.
+Lemma cache_enter : forall s c sc g, cache (enter_groups s c sc g) = cache s. Proof. destruct g; reflexivity. Qed.
+Lemma ulock_enter : forall s c sc g, ulock (enter_groups s c sc g) = ulock s. Proof. destruct g; reflexivity. Qed.
+Lemma actv_enter : forall s c sc g, actv (enter_groups s c sc g) = actv s. Proof. destruct g; reflexivity. Qed.
+Lemma subs_enter : forall s c sc g, subs (enter_groups s c sc g) = subs s. Proof. destruct g; reflexivity. Qed.
+Lemma bcasts_enter : forall s c sc g, bcasts (enter_groups s c sc g) = bcasts s. Proof. destruct g; reflexivity. Qed.
+Lemma cth_enter_other : forall s c sc g c', c' <> c -> cth (enter_groups s c sc g) c' = cth s c'.
+Proof. intros. destruct g; simpl; apply upd_other; auto. Qed.
+Lemma cth_enter_self : forall s c sc g,
+  c_script (cth (enter_groups s c sc g) c) = c_script (cth s c) /\
+  ((g = [] /\ c_pc (cth (enter_groups s c sc g) c) = CSendR (RpActive sc)) \/
+   (g <> [] /\ c_pc (cth (enter_groups s c sc g) c) = CAcqU sc g)).
+Proof. intros. destruct g; simpl; rewrite upd_same; simpl; split; auto. right; split; auto; discriminate. Qed.
+Lemma listens_enter : forall s c sc g c' p, listens (enter_groups s c sc g) c' p = listens s c' p.
+Proof. intros; apply listens_ext; [apply actv_enter | apply subs_enter]. Qed.
+
 Ltac unf := unfold pop_script, set_cpc, set_upc, log_add, release, reset in *; simpl in *;
   rewrite ?logs_next_upd, ?cth_next_upd, ?cache_next_upd, ?ulock_next_upd, ?dlock_next_upd, ?actv_next_upd,
-    ?subs_next_upd, ?bcasts_next_upd, ?listens_next_upd in *; simpl in *;
+    ?subs_next_upd, ?bcasts_next_upd, ?listens_next_upd, ?logs_enter, ?uth_enter, ?cache_enter, ?ulock_enter,
+    ?actv_enter, ?subs_enter, ?bcasts_enter, ?listens_enter in *; simpl in *;
   rewrite ?logs_register, ?cth_register, ?uth_register, ?cache_register, ?ulock_register, ?bcasts_register,
     ?logs_unregister, ?cth_unregister, ?uth_unregister, ?cache_unregister, ?ulock_unregister, ?bcasts_unregister in *;
   simpl in *.
 Ltac split_c c0 c := destruct (Nat.eq_dec c0 c) as [-> | ?N]; [rewrite ?upd_same in * | rewrite ?upd_other in * by auto]; simpl in *.
 
-Lemma snapshot_list_complete : forall nd sc p,
-  covers sc p = true -> exported nd p = true -> In p (snapshot_list nd sc).
-Proof.
-  intros nd sc p C E. destruct sc as [| m | m q]; simpl.
-  - apply in_flat_map. exists (fst p). split; [| apply params_of_spec; auto].
-    apply in_seq. split; [lia |]. simpl. unfold exported in E.
-    destruct (nth_error nd (fst p)) eqn:F; [| discriminate]. apply nth_error_Some. congruence.
-  - apply params_of_spec. simpl in C. apply Nat.eqb_eq in C. auto.
-  - apply covers_SP in C. subst; simpl; auto.
-Qed.
+
